@@ -711,7 +711,13 @@ def fresh_after_edit(pm: ProgramModel, ctx: Ctx, fmc: Any, rule: str = "C03-FRES
             cs.reverse()
             cs[0] = mb.constraint("k4", n(o("OR"), n("A"), n(o("OR"), n("B1"), n("C"))))
             cs.insert(0, mb.constraint("k5", n(o("NOT"), n(o("AND"), n("A1"), n("B")))))
+        def bounds() -> None:
+            # the alternative group becomes an or-group, the optional child mandatory (attribute assignments, as the FaMa
+            # reader does them)
+            it_.setattr_obj(h["ra"], "card_max", 2)
+            it_.setattr_obj(h["rb"], "card_min", 1)
         return {"sub-tree-detached": detach, "feature-replaced-by-same-name": replace, "child-added": add,
+                "relation-bounds-assigned": bounds,
                 "root-replaced": new_root, "constraint-formula-replaced": new_formula,
                 "constraint-formula-edited-in-place": formula_in_place, "constraint-list-edited": list_edited}
 
@@ -731,7 +737,17 @@ def fresh_after_edit(pm: ProgramModel, ctx: Ctx, fmc: Any, rule: str = "C03-FRES
         a_ = c._f.get("_ast")
         return mb2.constraint(c._f.get("name"), cp(a_._f.get("root"))) if isinstance(a_, AObj) else c
 
-    def observe(it: Interp, fm: AObj, names: list[str]) -> dict[str, Any]:
+    def named(x: Any) -> Any:
+        """By name (features) / owner and members (relations): comparable between two independently built trees."""
+        if isinstance(x, AObj) and x._cls == "Feature":
+            return ("feature", x._f.get("name"))
+        if isinstance(x, AObj) and x._cls == "Relation":
+            par = x._f.get("parent")
+            return ("relation", par._f.get("name") if isinstance(par, AObj) else None,
+                    tuple(c._f.get("name") for c in x._f.get("children", []) if isinstance(c, AObj)))
+        return ident(x) if isinstance(x, AObj) else x
+
+    def observe(it: Interp, fm: AObj, names: list[str], ident: Any = ident) -> dict[str, Any]:
         out: dict[str, Any] = {}
         for q in queries:
             try:
@@ -743,13 +759,13 @@ def fresh_after_edit(pm: ProgramModel, ctx: Ctx, fmc: Any, rule: str = "C03-FRES
             for nm in names:
                 try:
                     v = it.call(gbn, [fm, nm])
-                    out[f"get_feature_by_name({nm!r})"] = id(v) if isinstance(v, AObj) else v
+                    out[f"get_feature_by_name({nm!r})"] = ident(v) if isinstance(v, AObj) else v
                 except AbsRaise as exc:
                     out[f"get_feature_by_name({nm!r})"] = ("raise", exc.what.split(" at ")[0])
         return out
     names = ["R", "A", "B", "C", "A1", "A2", "B1", "C1", "C2", "missing"]
     import ast as _ast
-    for ename in ("sub-tree-detached", "feature-replaced-by-same-name", "child-added", "root-replaced",
+    for ename in ("sub-tree-detached", "feature-replaced-by-same-name", "child-added", "relation-bounds-assigned", "root-replaced",
                   "constraint-formula-replaced", "constraint-formula-edited-in-place", "constraint-list-edited"):
         if only is not None and ename not in only:
             continue
@@ -762,6 +778,20 @@ def fresh_after_edit(pm: ProgramModel, ctx: Ctx, fmc: Any, rule: str = "C03-FRES
         except ValueError:
             raise AnalysisError(rule, "edit could not be applied to the abstract tree")
         after = observe(it, fm, names)
+        after_named = observe(it, fm, names, named)
+        reset_global_state()
+        # second reference: an independently built tree, edited the same way before anything was asked of it (what a
+        # feature or a relation remembers from earlier queries is not there)
+        mb3, fm3, h3 = build()
+        it_ = Interp(pm, max_depth=40)
+        edits(mb3, fm3, h3)[ename]()
+        indep = observe(Interp(pm, max_depth=40), fm3, names, named)
+        diff2 = sorted(k for k in after_named if after_named[k] != indep.get(k))
+        if ename != "feature-replaced-by-same-name":
+            ctx.check(not diff2, rule, f"after-edit:{ename}:independent-tree", loc(fmc.unit.path, fmc.node),
+                      f"{len(after_named)} queries answer as on an independently built tree of the edited shape ({ename})",
+                      bad=f"after the edit '{ename}' these queries answer differently from a tree built in the edited shape from "
+                          f"scratch (something remembered on a feature, relation or constraint): {diff2[:4]}")
         reset_global_state()
         # the reference: the same (edited) tree seen by a FeatureModel object that was never queried before
         mb2 = ModelBuilder(pm)
